@@ -203,6 +203,8 @@ prop("C15",
      bounds={"quick": "pool of 2 pointers, fixpoint; object programs depth 2", "thorough": "pool of 3 pointers, fixpoint; object programs depth 3"},
      runs=[dict(name="h_memtrack5", sources=["harness/h_memtrack.c"], profile="asan_dbg5", exclude=["mem.c"], wraps=_MW, args={"quick": ["--pool=2"], "thorough": ["--pool=3"]}),
            dict(name="h_memtrack4", sources=["harness/h_memtrack.c"], profile="asan_dbg4", exclude=["mem.c"], wraps=_MW, args={"quick": ["--pool=2"], "thorough": ["--pool=3"]}),
+           # the tracked build once more under MemorySanitizer (quick bounds in both tiers)
+           dict(name="h_memtrack5_msan", sources=["harness/h_memtrack.c"], profile="msan_dbg5", exclude=["mem.c"], wraps=_MW, args={"quick": ["--pool=2"], "thorough": ["--pool=2"]}),
            # plain build: the table of 66000 live blocks (under ASan every growth step of the table is a copy)
            dict(name="h_memtrack5_plain", sources=["harness/h_memtrack.c"], profile="dbg5", exclude=["mem.c"], wraps=_MW, args={"quick": ["--only=many"], "thorough": ["--only=many"]}),
            dict(name="h_own_track", sources=["harness/h_own.c"], profile="asan_dbg5", exclude=["mem.c"], cflags=["-DVERIF_TRACKCHECK"], args={"quick": ["--depth=2"], "thorough": ["--depth=3"]})],
